@@ -639,4 +639,207 @@ theorem sim_eval : ∀ n, SimEv (evalS n) (eval n)
   | 0 => fun s _ _ _ hwf _ => post_fail _ hwf
   | n + 1 => sim_step (sim_eval n)
 
+
+/-! ### `#finalize`, `Statement.__call__`, `Statement.evaluate` -/
+
+/-- the `#iter` delegate calls of the finaliser touch nothing the reference sees -/
+theorem post_iterCalls {Q : St → γ → δ → Prop} {F : Nat} {C : Ctx} {k : M γ} {r : R δ} :
+    ∀ (n : Nat) (s : St), WF s.cells → CtxRel s F C →
+      (∀ s1, WF s1.cells → Ext s s1 → Post Q s1 (k s1) r) → Post Q s ((iterCalls F n >>= fun _ => k) s) r
+  | 0, s, hwf, _, hk => by
+    have : (iterCalls F 0 >>= fun _ => k) s = k s := rfl
+    rw [this]; exact hk s hwf (Ext.refl s)
+  | n + 1, s, hwf, hF, hk => by
+    have e1 : iterCalls F (n + 1) = (childCtx F >>= fun D => childCtx D >>= fun _ => iterCalls F n) := rfl
+    have e : (iterCalls F (n + 1) >>= fun _ => k) =
+        (childCtx F >>= fun D => childCtx D >>= fun _ => (iterCalls F n >>= fun _ => k)) := by
+      rw [e1, bind_assoc_M]
+      all_goals (congr 1)
+      all_goals (funext D; rw [bind_assoc_M])
+    rw [e]
+    refine post_child hwf hF (fun s1 D hwf1 hle1 hD => ?_)
+    refine post_child hwf1 hD (fun s2 _ hwf2 hle2 _ => ?_)
+    exact post_iterCalls n s2 hwf2 (hF.mono (hle1.trans hle2) hwf2)
+      (fun s3 hwf3 hle3 => by
+        obtain ⟨h1, h2, h3⟩ := hk s3 hwf3 ((hle1.trans hle2).trans hle3)
+        exact ⟨h1, h2, h3⟩)
+
+theorem post_rhs_eq {Q : St → α → β → Prop} {s : St} {x : Except Err α × St} {r r' : R β} (h : r = r')
+    (hp : Post Q s x r') : Post Q s x r := h ▸ hp
+
+theorem finalise_drain (o : Obj) (it : VL × Option Err) (h : toIter o = some it) (hn : ∀ C, o ≠ .ctx C) :
+    (drain it >>= fun _ => finalise o) = finalise o := by
+  have hf : finalise o = (do let xs ← drain it; if Seq.finOkL xs then pure (.data (.list xs)) else .error .type) := by
+    cases o with
+    | ctx C => exact absurd rfl (hn C)
+    | val v => simp only [finalise, h]
+    | lazy a b => simp only [finalise, h]
+    | ordered a b => simp only [finalise, h]
+  rw [hf]
+  cases drain it <;> rfl
+
+theorem sim_finalise {s : St} {F : Nat} {C : Ctx} (o : ObjS) (o' : Obj) (ho : ObjRel s o o') (hwf : WF s.cells)
+    (hF : CtxRel s F C) : Post QEq s (finaliseS F o s) (finalise o') := by
+  unfold EvalStore.finaliseS
+  cases o with
+  | ctx c =>
+    cases o' with
+    | ctx C' => exact post_pure hwf rfl
+    | val v => simp [ObjRel] at ho
+    | lazy a b => simp [ObjRel] at ho
+    | ordered a b => simp [ObjRel] at ho
+  | data d =>
+    obtain ⟨rfl, hn⟩ := ho
+    simp only
+    cases hit : toIter d with
+    | some it =>
+      simp only
+      refine post_iterCalls 1 s hwf hF (fun s1 hwf1 hle1 => ?_)
+      refine post_iterCalls _ s1 hwf1 (hF.mono hle1 hwf1) (fun s2 hwf2 _ => ?_)
+      refine post_rhs_eq (finalise_drain d it hit hn).symm ?_
+      exact post_bind_eq (post_liftR _ hwf2) (fun s3 _ hwf3 _ => post_liftR _ hwf3)
+    | none =>
+      cases d with
+      | ctx C' => exact absurd rfl (hn C')
+      | val v =>
+        simp only
+        exact post_iterCalls _ s hwf hF (fun s1 hwf1 _ => post_liftR _ hwf1)
+      | lazy a b => simp [toIter] at hit
+      | ordered a b => simp [toIter] at hit
+
+/-- `Statement.__call__`: the store-passing `#finalize(expression)` against the reference's `eval` + `finalise` -/
+theorem sim_callS (fuel : Nat) (e : Expr) (s : St) (c : Nat) (C : Ctx) (hwf : WF s.cells) (hC : CtxRel s c C) :
+    Post QEq s (callS fuel c e s) (eval fuel C e >>= finalise) := by
+  unfold EvalStore.callS
+  refine post_bind (sim_eval fuel s c C e hwf hC) (fun s1 o o' hwf1 hle1 ho => ?_)
+  refine post_child hwf1 (hC.mono hle1 hwf1) (fun s2 F hwf2 hle2 hF => ?_)
+  exact sim_finalise o o' (ho.mono hle2 hwf2) hwf2 hF
+
+/-! ## the refinement theorems -/
+
+/-- **The refinement at full strength**: for every fuel, expression, well-formed store and context ID whose chain is
+    `C` up to frames that bind nothing, `evalS` and `Eval.eval` return the same value / the same error (a context
+    object: an ID whose chain is the reference's, again up to such frames), and the store stays well-formed and
+    only grows. -/
+def refines_eval_full : Prop :=
+  ∀ (n : Nat) (s : St) (c : Nat) (C : Ctx) (e : Expr), WF s.cells → CtxRel s c C →
+    Post ObjRel s (evalS n c e s) (eval n C e)
+
+/-- **refines_eval**: the full statement, proved (every construct of the fragment) -/
+theorem refines_eval : refines_eval_full := fun n s c C e hwf hC => sim_eval n s c C e hwf hC
+
+/-- ... spelled out for results that are data: same value, same error -/
+theorem refines_eval_value (n : Nat) (s : St) (c : Nat) (C : Ctx) (e : Expr) (hwf : WF s.cells) (hC : CtxRel s c C) :
+    (∀ o, eval n C e = .ok o → (∀ C', o ≠ .ctx C') → (evalS n c e s).1 = .ok (.data o)) ∧
+    (∀ er, eval n C e = .error er → (evalS n c e s).1 = .error er) ∧
+    (∀ er, (evalS n c e s).1 = .error er → eval n C e = .error er) := by
+  obtain ⟨_, _, hr⟩ := sim_eval n s c C e hwf hC
+  cases hS : (evalS n c e s).1 with
+  | error er =>
+    cases hE : eval n C e with
+    | error er' =>
+      rw [hS, hE] at hr
+      simp only [ResRel] at hr
+      subst hr
+      exact ⟨fun o h => (by cases h), fun er h => (by cases h; rfl), fun er h => (by cases h; rfl)⟩
+    | ok o => rw [hS, hE] at hr; exact hr.elim
+  | ok a =>
+    cases hE : eval n C e with
+    | error er' => rw [hS, hE] at hr; exact hr.elim
+    | ok b =>
+      rw [hS, hE] at hr
+      simp only [ResRel] at hr
+      refine ⟨fun o h hn => ?_, fun er h => (by cases h), fun er h => (by cases h)⟩
+      cases h
+      cases a with
+      | data d => rw [hr.1]
+      | ctx X =>
+        cases b with
+        | ctx C' => exact absurd rfl (hn C')
+        | val v => exact hr.elim
+        | lazy x y => exact hr.elim
+        | ordered x y => exact hr.elim
+
+/-- the store a host hands to `evaluate`: context `c` is an empty child context under a chain that binds nothing
+    (the builtins live outside the model) -/
+def FreshCtx (s : St) (c : Nat) : Prop :=
+  WF s.cells ∧ CtxRel s c [] ∧ ∃ cell, s.cells[c]? = some cell ∧ cell.data = [] ∧ cell.funs = []
+
+/-- **refines_run**: `statement.evaluate(data=doc, context=c)` of the store-passing evaluator returns exactly what
+    C04's `Eval.run` returns - every fuel, document, expression, every such store. -/
+theorem refines_run (fuel : Nat) (doc : Value) (e : Expr) (s : St) (c : Nat) (h : FreshCtx s c) :
+    (evaluateS fuel c doc e s).1 = Eval.run fuel doc e := by
+  obtain ⟨hwf, hC, cell, hcell, hd, hf⟩ := h
+  obtain ⟨cd, cf, cp⟩ := cell
+  simp only at hd hf
+  subst hd; subst hf
+  have hs := setVar_cells c ['$'] doc s _ hcell
+  have hwf1 : WF (setVar c ['$'] doc s).2.cells := by rw [hs]; exact hwf.set_data c _ hcell _
+  obtain ⟨hlen, _⟩ := List.getElem?_eq_some_iff.mp hcell
+  -- the chain of an older context does not see cell `c`
+  have key : ∀ (newc : Cell) (f q : Nat), q < c → absF (s.cells.set c newc) f q = absF s.cells f q := by
+    intro newc f
+    induction f with
+    | zero => intro q _; rfl
+    | succ f ih =>
+      intro q hq
+      simp only [absF, List.getElem?_set_ne (Nat.ne_of_gt hq)]
+      cases hq' : s.cells[q]? with
+      | none => rfl
+      | some cq =>
+        simp only
+        cases hpq : cq.parent with
+        | none => rfl
+        | some pq =>
+          have : pq < q := (hwf q cq hq').1 pq hpq
+          simp only
+          rw [ih pq (by omega)]
+  have hC1 : CtxRel (setVar c ['$'] doc s).2 c [{ vars := [(['$', '1'], doc)] }] := by
+    refine ⟨by rw [hs]; simpa using hlen, ?_⟩
+    rw [hs]
+    rw [hs] at hwf1
+    rw [abs_cons hwf1 c _ (List.getElem?_set_self hlen)]
+    have h0 := hC.2
+    rw [abs_cons hwf c _ hcell] at h0
+    cases cp with
+    | none => simp [strip, List.filter, emptyFrame, frameOfCell, aset, normName]
+    | some p =>
+      have hpc : p < c := (hwf c _ hcell).1 p rfl
+      simp only at h0 ⊢
+      have hp : abs (s.cells.set c { data := aset (normName ['$']) doc [], funs := [], parent := some p }) p =
+          abs s.cells p := key _ _ p hpc
+      rw [hp]
+      have h1 : strip (abs s.cells p) = [] := by
+        rw [strip_empty_cons _ _ (by rfl)] at h0; exact h0
+      have hs1 : ∀ (F : Frame) (A : Ctx), emptyFrame F = false → strip (F :: A) = F :: strip A := by
+        intro F A h; simp [strip, List.filter, h]
+      rw [hs1 _ _ (by rfl), h1]
+      rfl
+  rw [show (evaluateS fuel c doc e s).1 = (callS fuel c e (setVar c ['$'] doc s).2).1 from by
+    unfold EvalStore.evaluateS; rw [bind_run]; rfl]
+  obtain ⟨_, _, hr⟩ := sim_callS fuel e _ c _ hwf1 hC1
+  unfold Eval.run
+  cases hS : (callS fuel c e (setVar c ['$'] doc s).2).1 with
+  | error er =>
+    cases hE : (eval fuel [{ vars := [(['$', '1'], doc)] }] e >>= finalise) with
+    | error er' => rw [hS, hE] at hr; simp only [ResRel] at hr; rw [hr]
+    | ok b => rw [hS, hE] at hr; exact hr.elim
+  | ok a =>
+    cases hE : (eval fuel [{ vars := [(['$', '1'], doc)] }] e >>= finalise) with
+    | error er' => rw [hS, hE] at hr; exact hr.elim
+    | ok b => rw [hS, hE] at hr; simp only [ResRel, QEq] at hr; rw [hr]
+
+/-- non-vacuity: the driver's start store (root, child handed to `evaluate`) is such a store -/
+example : FreshCtx { cells := [{}, { parent := some 0 }], log := [] } 1 := by
+  refine ⟨?_, ⟨by decide, rfl⟩, { parent := some 0 }, rfl, rfl, rfl⟩
+  intro i cell hi
+  match i, hi with
+  | 0, hi =>
+    cases hi
+    exact ⟨fun _ h => (by cases h), fun _ _ _ h => (by cases h)⟩
+  | 1, hi =>
+    cases hi
+    exact ⟨fun p h => (by cases h; decide), fun _ _ _ h => (by cases h)⟩
+  | n + 2, hi => cases hi
+
 end Yaql.Props.EvalStore
